@@ -120,6 +120,14 @@ type Cluster struct {
 	Script func(e *Entry) string
 	// OnEvent is called (without the lock) whenever something observable happened.
 	OnEvent func()
+	// ClientWriteWindow, when > 0, bounds the bytes a client connection may have in flight (its writes block
+	// when the broker does not read, and then obey the write deadline).
+	ClientWriteWindow int
+	// StalledReads counts how many times a broker stopped reading in the middle of a request (StallNext).
+	StalledReads int
+	stallNext    map[protocol.ApiKey]bool
+	stalledConn  int
+	stallCond    *sync.Cond
 	// Mutate, when set, may replace a complete response frame just before it is written (msg is the decoded
 	// form when the broker encoded it with the protocol package, nil for raw frames). Called with the lock held.
 	Mutate func(e *Entry, frame []byte, msg protocol.Message) []byte
@@ -155,6 +163,9 @@ func New(nbrokers int) *Cluster {
 		c.Brokers = append(c.Brokers, &Broker{ID: i, Host: fmt.Sprintf("b%d", i), Port: 9092})
 	}
 	c.Now = func() time.Duration { return time.Since(c.start) }
+	c.stallNext = map[protocol.ApiKey]bool{}
+	c.stalledConn = -1
+	c.stallCond = sync.NewCond(&c.mu)
 	c.CoordOf = func(string) int { return 1 }
 	return c
 }
@@ -222,6 +233,9 @@ func (c *Cluster) Dial(ctx context.Context, network, addr string) (net.Conn, err
 	id := len(c.Conns)
 	cli, srv := vnet.Pipe(id, "client:"+strconv.Itoa(40000+id), b.Addr(), true)
 	cli.PointOnWrite = c.ClientWritePoints
+	if c.ClientWriteWindow > 0 {
+		cli.SetWriteWindow(c.ClientWriteWindow)
+	}
 	if c.GateResponses {
 		srv.Gate()
 	}
@@ -252,7 +266,29 @@ func (c *Cluster) serve(sc *srvConn) {
 			return
 		}
 		frame := make([]byte, size)
-		if _, err := io.ReadFull(sc.srv, frame); err != nil {
+		if size >= 2 && !raw {
+			// the api key first: a broker that stops reading in the middle of a request (armed with StallNext)
+			if _, err := io.ReadFull(sc.srv, frame[:2]); err != nil {
+				return
+			}
+			key := protocol.ApiKey(int16(binary.BigEndian.Uint16(frame[:2])))
+			c.mu.Lock()
+			if c.stallNext[key] {
+				delete(c.stallNext, key)
+				c.stalledConn = sc.id
+				c.StalledReads++
+				c.mu.Unlock()
+				c.event()
+				c.mu.Lock()
+				for c.stalledConn == sc.id {
+					c.stallCond.Wait()
+				}
+			}
+			c.mu.Unlock()
+			if _, err := io.ReadFull(sc.srv, frame[2:]); err != nil {
+				return
+			}
+		} else if _, err := io.ReadFull(sc.srv, frame); err != nil {
 			return
 		}
 		vhook.Point(vhook.KEnv, nil)
@@ -497,6 +533,30 @@ func (c *Cluster) CutConn(id int) {
 	if id < len(c.Conns) {
 		c.dropConn(c.Conns[id])
 	}
+	c.mu.Unlock()
+	c.event()
+}
+
+// StallNext makes the broker stop reading after the first six bytes (size and api key) of the next request with
+// that api key, on whichever connection it arrives, until ResumeReads.
+func (c *Cluster) StallNext(key protocol.ApiKey) {
+	c.mu.Lock()
+	c.stallNext[key] = true
+	c.mu.Unlock()
+}
+
+// StalledConn returns the connection on which the broker has stopped reading (-1: none).
+func (c *Cluster) StalledConn() int {
+	c.mu.Lock()
+	defer c.mu.Unlock()
+	return c.stalledConn
+}
+
+// ResumeReads lets the broker read on.
+func (c *Cluster) ResumeReads() {
+	c.mu.Lock()
+	c.stalledConn = -1
+	c.stallCond.Broadcast()
 	c.mu.Unlock()
 	c.event()
 }
